@@ -128,11 +128,11 @@ parts = [
        ("C06:inv", "final(self).inv()"),
        ("C06:config_frame", "final(self).is_server == old(self).is_server && final(self).expected_username == old(self).expected_username && final(self).expected_password == old(self).expected_password"),
        # the only way a server leaves ServerExpectHello towards success is a HELLO carrying exactly the configured credentials
-       ("C06:server_accepts_only_configured_credentials",
+       ("C05+C06:server_accepts_only_configured_credentials",
         "old(self).is_server && r is Ok ==> old(self).state is ServerExpectHello && final(self).state is ServerSendWelcome "
         "&& (old(self).expected_username matches Some(eu) && final(self).username matches Some(u) && u@ == eu@) "
         "&& (old(self).expected_password matches Some(ep) && final(self).password matches Some(p) && p@ == ep@)"),
-       ("C06:no_expected_credentials_means_reject", "old(self).is_server && (old(self).expected_username is None || old(self).expected_password is None) ==> r is Err"),
+       ("C05+C06:no_expected_credentials_means_reject", "old(self).is_server && (old(self).expected_username is None || old(self).expected_password is None) ==> r is Err"),
        ("C06:error_is_terminal", "r is Err ==> final(self).state is Error"),
        ("C06:never_ready_by_token_on_server", "old(self).is_server ==> !(final(self).state is Ready) || old(self).state is Ready"),
        ("C06:client_ready_only_on_welcome", "!old(self).is_server && r is Ok ==> old(self).state is ClientExpectWelcome && final(self).state is Ready"),
@@ -183,4 +183,4 @@ parts = [
 ]
 
 FNS = {p.name: p for p in parts if isinstance(p, Fn)}
-unit = Unit("plain", ["C06", "C07"], parts, safety_props=["C07"], notes="PLAIN mechanism")
+unit = Unit("plain", ["C05", "C06", "C07"], parts, safety_props=["C07"], notes="PLAIN mechanism")
